@@ -2,6 +2,7 @@
 from .. import core, build
 from ..core import Job
 
+# reference and workload children perturb the allocator differently (mallopt M_PERTURB), so MALLOC_PERTURB_ from the driver is irrelevant here
 PREBUILD = [("c06", "optim", be) for be in build.BACKENDS] + [("c06", "debug", "spqlios-fma"), ("c06", "debug", "fftw"), ("c06", "tsan", "nayuki-portable"), ("c06", "tsan", "fftw"), ("c06", "tsan", "spqlios-fma")]
 TSAN = {"TSAN_OPTIONS": "halt_on_error=0:exitcode=66:second_deadlock_stack=1"}
 
@@ -33,7 +34,7 @@ def run(tier, seed):
         if f.get("crash") and "ThreadSanitizer" in (f.get("why") or ""):
             f["sig"] = "c06/tsan-report"
     res.rule = ("E1 rapidcheck over workloads: thread count in {1,2,3,4,8,16,32,64}, per-thread operation lists drawn from {each gate on shared inputs, tfhe_bootstrap_FFT, tfhe_bootstrap_woKS_FFT, FFT product of "
-                "thread-private polynomials, Lagrange add/addmul on private objects, heap churn (allocate, fill, free 16..512 KB before the next FFT call), sleep/yield, thread exit + respawn}, generated start offsets, optional "
+                "thread-private polynomials, Lagrange add/addmul on private objects, heap churn (allocate, fill, free 16..512 KB before the next FFT call), loops over the rounding functions with other message-space sizes, exact Karatsuba products, sleep/yield, thread exit + respawn}, generated start offsets, optional "
                 "key-generation/encryption thread on its own data, key generated on the main thread or on a thread that has since exited; all jobs run concurrently so the machine is oversubscribed. Oracle: every output is "
                 "byte-identical to a reference computed by a fresh thread of a *freshly forked process image* that has never evaluated anything and runs only that operation (so concurrency, position in the per-thread history, thread identity and process-wide statics latched by earlier calls must not matter); operations include bootstrapping under two further key sets with different dimensions and key-switch layouts, and two crafted inputs whose AND combination rounds to exactly 0; ThreadSanitizer build "
                 "of the same workloads must not report (nayuki-portable, fftw, C++ parts of spqlios). Non-trivial = >= 2 threads evaluating on the shared key or an evaluation preceded by other operations on its thread; distinct by case hash.")
